@@ -45,18 +45,21 @@ def obligations(ctx):
                          certs=o("certs", "CertificatesBuilder"), voting_procedures=o("votes", "VotingBuilder"))
         return [R(tb, "tx_builder")]
     ob = Obligation(ctx, "c18_e2_count_needed_vkeys_is_union", "membership of an arbitrary key in each of the seven sources: arbitrary; optional sub-builders present/absent",
-                    ["count_needed_vkeys"], fallback_native="e2n_builder_battery")
+                    ["count_needed_vkeys"], fallback_native=["e2n_builder_battery", "e2n_c18_shared_keys"])
     n = 0
     for o in E.explore("count_needed_vkeys", mk):
         if o.kind != "return":
             ob.vc("no panic (%s %s)" % (o.kind, o.msg), o.pc, z3.BoolVal(False)); continue
         lens = [t for t in o.trace if t[0] == "keyset_len"]
-        if len(lens) != 1:
-            ob.fail("count is not the len() of one set"); continue
+        if not lens:
+            ob.fail("count is not built from the len() of key sets"); continue
         n += 1
         exp = z3.Or(src["inputs"], src["collateral"], src["required_signers"], z3.And(present["mint"], src["mint_scripts"]),
                     z3.And(present["withdrawals"], src["withdrawals"]), z3.And(present["certs"], src["certs"]), z3.And(present["votes"], src["votes"]))
-        ob.vc("an arbitrary key is counted iff one of the seven sources requires it", o.pc, lens[0][1] == exp)
+        # pointwise: what an arbitrary key contributes to the count is the number of measured sets that hold it (one merged set on the
+        # unchanged tree); it must be 1 when some source requires the key and 0 otherwise - never 2 (a key needed on two sides signs once)
+        contrib = z3.Sum([z3.If(t[1], 1, 0) for t in lens])
+        ob.vc("an arbitrary key is counted exactly once iff one of the seven sources requires it (%d set lengths enter the count)" % len(lens), o.pc, contrib == z3.If(exp, 1, 0))
     if n == 0:
         ob.fail("no path")
     ob.finish(E)
@@ -370,10 +373,11 @@ def mint_signers(ctx):
             if o.kind != "return":
                 ob.vc("no panic (%s %s)" % (o.kind, o.msg[:80]), o.pc, z3.BoolVal(False)); continue
             lens = [t for t in o.trace if t[0] == "keyset_len"]
-            if len(lens) != 1:
-                ob.fail("count is not the len() of one set"); continue
+            if not lens:
+                ob.fail("count is not built from the len() of key sets"); continue
             n_ok += 1
-            ob.vc("mint entries %s: an arbitrary key is counted iff one of the script sources requires it" % list(combo), o.pc, lens[0][1] == z3.Or(list(spec)), info=list(combo))
+            ob.vc("mint entries %s: an arbitrary key is counted exactly once iff one of the script sources requires it" % list(combo), o.pc,
+                  z3.Sum([z3.If(t[1], 1, 0) for t in lens]) == z3.If(z3.Or(list(spec)), 1, 0), info=list(combo))
         agg.stats["paths"] += E.stats["paths"]; agg.stats["feasibility_queries"] += E.stats["feasibility_queries"]; agg.stats["functions"] |= E.stats["functions"]
     if n_ok == 0:
         ob.fail("no path")
